@@ -103,8 +103,8 @@ AtMostOK ==
 
 (*************************** U2: shapes ************************************)
 Fmts == {"float16", "float32", "float64"}
-ExpClasses == {"near_kln2", "near_khalfln2", "random", "interior", "tiny", "huge", "edge"}
-TrigClasses == {"near_kpio2", "convergent", "switch", "random", "interior", "tiny", "huge", "edge"}
+ExpClasses == {"near_kln2", "near_khalfln2", "random", "interior", "history", "tiny", "huge", "edge"}
+TrigClasses == {"near_kpio2", "convergent", "switch", "random", "interior", "history", "tiny", "huge", "edge"}
 \* float16 is enumerated exhaustively: one shape covers every class inside the domain
 Shapes ==
   {[fn |-> "exp", fmt |-> f, cls |-> c] : f \in Fmts \ {"float16"}, c \in ExpClasses}
